@@ -605,7 +605,7 @@ fn forest(t: &[&str], nav: bool) -> String {
     let da = DebugAbbrev::new(&abb, en);
     let tbl = match h.abbreviations(&da) {
         Ok(t) => t,
-        Err(e) => return format!("{} abbrev=!{}", hdr, errname(&e)),
+        Err(e) => return format!("abbrev!{} {} abbrev=!{}", errname(&e), hdr, errname(&e)),
     };
     let s = styles(&h, &tbl, nav);
     if let Some(o) = s.oracle {
@@ -621,7 +621,10 @@ fn forest(t: &[&str], nav: bool) -> String {
     toks.push(tok(nav, "at", &s.at));
     toks.push(tok(nav, "from", &s.from));
     toks.push(tok(nav, "sub", &s.sub));
-    toks.join(" ")
+    // first token: outcome class of raw reading
+    let last = s.raw.rsplit(';').next().unwrap_or("");
+    let class = if last.starts_with('!') { format!("raw{}", last) } else { "ok".to_string() };
+    format!("{} {}", class, toks.join(" "))
 }
 
 // ------------------------------------------------------------------ EntriesRaw::new with any offset
